@@ -21,6 +21,7 @@ import KafkaVerif.Lemmas.GroupFront
 import KafkaVerif.Lemmas.ReaderRun
 import KafkaVerif.Lemmas.GroupLog
 import KafkaVerif.Lemmas.GroupResp
+import KafkaVerif.Lemmas.GroupReq
 
 namespace KV.Commit.C03
 open KV.Commit
@@ -388,6 +389,17 @@ theorem heartbeat_error_on_the_wire (code : Int) (hc : KV.GroupWire.Fits 2 code)
       ((if code = 0 then Outcome.ok else Outcome.kafka code), ⟨[], 0⟩) :=
   ⟨errOnly_conclusion "heartbeat" _ rfl code hc topic, errOnly_conclusion "leaveGroup" _ rfl code hc topic⟩
 
+/-- the requests: OffsetCommit v2 and OffsetFetch v1 as the legacy Conn writes them (writers re-extracted into
+`Gen/Legacy.lean`) are the Kafka layouts, every field in its place by name (generation id, member id, retention, per
+partition: partition, offset, metadata) -/
+theorem commit_requests_on_the_wire :
+    (∀ t, KV.Gen.Legacy.offsetCommitRequestV2.writeTo t =
+      KV.Spec.GroupWire.Req.offsetCommit t.GroupID t.GenerationID t.MemberID t.RetentionTime
+        (t.Topics.map fun x => (x.Topic, x.Partitions.map fun p => (p.Partition, p.Offset, p.Metadata)))) ∧
+    (∀ t, KV.Gen.Legacy.offsetFetchRequestV1.writeTo t =
+      KV.Spec.GroupWire.Req.offsetFetch t.GroupID (t.Topics.map fun x => (x.Topic, x.Partitions))) :=
+  ⟨KV.GroupReq.offsetCommit_layout, KV.GroupReq.offsetFetch_layout⟩
+
 end Wire
 
 /-! ## the per-generation unsubscribe function of Reader.run (D8b) -/
@@ -420,6 +432,62 @@ theorem previous_generation_fetchers_stopped (cap : Bool) (s : RR) (h : RReachab
 theorem unsubscribe_matches_source : KV.Gen.Group.unsubscribeCancels = "parameter" := by decide
 
 end ReaderRunSection
+
+/-! ## the fetcher's restart position across reconnects inside a generation (`reader.go (*reader).run`)
+
+`for attempt … { conn, start, err := r.initialize(ctx, offset); …; offset = start; readLoop: offset, err = r.read(ctx, offset, conn) … }`:
+`offset` is the function's parameter — the generation's assignment offset at first, possibly the symbolic LastOffset /
+FirstOffset — and is overwritten by the resolved `start` and then by every read, so that a re-initialisation after a
+fault resumes where the fetcher stands.  `shadow = true` is the variant `offset := start` (seeded change C03-m8): the
+loop's copy advances, the parameter keeps the generation's start. -/
+section Restart
+
+structure FR where
+  param : Int              -- the `offset` parameter of run (−1 = LastOffset)
+  cur : Int := 0           -- the position the read loop works with
+  delivered : List Int := []
+  deriving DecidableEq, Repr
+
+inductive FREv
+  | init (logEnd : Int)    -- (re)initialise: resolve the parameter against the log
+  | deliver                -- the read loop hands out the record at `cur`
+  deriving Repr
+
+def FR.step (shadow : Bool) (s : FR) : FREv → FR
+  | .init logEnd =>
+    let start := if s.param = -1 then logEnd else s.param
+    if shadow then { s with cur := start } else { s with param := start, cur := start }
+  | .deliver =>
+    if shadow then { s with cur := s.cur + 1, delivered := s.delivered ++ [s.cur] }
+    else { s with param := s.cur + 1, cur := s.cur + 1, delivered := s.delivered ++ [s.cur] }
+
+def FR.run (shadow : Bool) (s : FR) : List FREv → FR
+  | [] => s
+  | e :: es => (s.step shadow e).run shadow es
+
+/-- (unchanged code) once initialised at an absolute offset, after any number of deliveries the parameter equals the
+loop's position, so a re-initialisation — whatever the log end is by then — resumes exactly where the fetcher stands -/
+theorem restart_resumes_at_position (t : FR) (h : t.param = t.cur) (h0 : 0 ≤ t.cur) (n : Nat) (logEnd' : Int) :
+    ((t.run false (List.replicate n .deliver)).step false (.init logEnd')).cur = t.cur + n := by
+  induction n generalizing t with
+  | zero =>
+    simp [FR.run, FR.step, h]
+    intro hc; omega
+  | succ n ih =>
+    simp only [List.replicate_succ, FR.run]
+    rw [ih (t.step false .deliver) (by simp [FR.step]) (by simp [FR.step]; omega)]
+    simp [FR.step]; omega
+
+/-- C03-m8: with the shadowed variable a generation started at LastOffset re-initialises at the NEW end of the log:
+records 3 (appended while the connection was down) is never delivered -/
+theorem shadowed_restart_counterexample :
+    (FR.run true { param := -1 } [.init 2, .deliver, .init 4, .deliver]).delivered = [2, 4] ∧
+    (FR.run false { param := -1 } [.init 2, .deliver, .init 4, .deliver]).delivered = [2, 3] := by decide
+
+/-- regenerated: the statement after `r.initialize` is a plain assignment to run's own offset parameter -/
+theorem restart_matches_source : KV.Gen.Group.restartAssign = ("=", true) := by decide
+
+end Restart
 
 /-! ## ReadMessage = FetchMessage + synchronous CommitMessages (C03-D30, known finding) -/
 section ReadMessageSection
